@@ -4,42 +4,11 @@
   dyadic Spec (Spec/Fixed.lean) and the model agree there.
 -/
 import DltVerif.Lemmas.Round53
+import DltVerif.Lemmas.NearestDouble
 import DltVerif.Spec.Fixed
 
 namespace Dlt
 open Dlt.Spec
-
-theorem fits53_witness (n : Nat) (h : fits53 n = true) : ∃ j, n % 2 ^ j = 0 ∧ n / 2 ^ j < 2 ^ 53 := by
-  unfold fits53 at h
-  rw [List.any_eq_true] at h
-  obtain ⟨j, _, hj⟩ := h
-  simp only [Bool.and_eq_true, beq_iff_eq, decide_eq_true_eq] at hj
-  exact ⟨j, hj.1, hj.2⟩
-
-/-- a factor `2^k` does not change whether a number has at most 53 significant bits -/
-theorem dyadic_of_mul_pow (x k j : Nat) (h1 : (x * 2 ^ k) % 2 ^ j = 0) (h2 : (x * 2 ^ k) / 2 ^ j < 2 ^ 53) :
-    ∃ j', x % 2 ^ j' = 0 ∧ x / 2 ^ j' < 2 ^ 53 := by
-  by_cases hjk : k ≤ j
-  · -- x * 2^k = c * 2^j with j = k + d: x = c * 2^d
-    obtain ⟨d, rfl⟩ := Nat.exists_eq_add_of_le hjk
-    refine ⟨d, ?_, ?_⟩
-    · have hp : 0 < 2 ^ k := Nat.pow_pos (by omega)
-      rw [Nat.pow_add, Nat.mul_comm (2 ^ k) (2 ^ d), Nat.mul_mod_mul_right] at h1
-      rcases Nat.mul_eq_zero.mp h1 with h | h
-      · exact h
-      · omega
-    · rw [Nat.pow_add, Nat.mul_comm (2 ^ k) (2 ^ d), Nat.mul_div_mul_right _ _ (Nat.pow_pos (by omega))] at h2
-      exact h2
-  · -- j < k: x * 2^(k-j) < 2^53, so x < 2^53
-    refine ⟨0, by simp [Nat.mod_one], ?_⟩
-    have hj : j ≤ k := by omega
-    obtain ⟨d, rfl⟩ := Nat.exists_eq_add_of_le hj
-    have e1 : x * 2 ^ (j + d) = x * 2 ^ d * 2 ^ j := by
-      rw [Nat.pow_add, Nat.mul_comm (2 ^ j) (2 ^ d), Nat.mul_assoc]
-    rw [e1, Nat.mul_div_cancel _ (Nat.pow_pos (by omega))] at h2
-    have : x ≤ x * 2 ^ d := Nat.le_mul_of_pos_right _ (Nat.pow_pos (by omega))
-    simp only [Nat.pow_zero, Nat.div_one]
-    omega
 
 theorem f32ToF64_of_dyadic (q : BitVec 32) (qneg : Bool) (m : Nat) (e : Int)
     (h : f32Dyadic q.toNat = some (qneg, m, e)) : f32ToF64 q = .fin qneg m e := by
@@ -111,43 +80,39 @@ theorem toU64_fin (neg : Bool) (q : Nat) (E : Int) (h : neg = false ∨ q = 0) (
       rw [if_neg (by omega)]
     · rw [hz]; rfl
 
-/-- where `v` and `v * q` have at most 53 significant bits and the product is not negative,
-    the double-precision product truncated toward zero is the mathematical one -/
-theorem truncatedProduct_exact (v : Int) (q : BitVec 32) (qneg : Bool) (m : Nat) (e : Int)
+/-- the double-precision product of the model, truncated toward zero, is the number the IEEE
+    definition of the Spec prescribes: `value as f64` is `nearestDouble |v|`, the product is
+    `nearestDouble` of the exact product of the two doubles, scaled by the quantization's
+    exponent -/
+theorem truncatedProduct_spec (v : Int) (q : BitVec 32) (qneg : Bool) (m : Nat) (e : Int)
     (hq : f32Dyadic q.toNat = some (qneg, m, e))
-    (h1 : fits53 v.natAbs = true) (h2 : fits53 (v.natAbs * m) = true)
-    (hs : ¬ (v.natAbs * m ≠ 0 ∧ ((decide (v < 0)) != qneg) = true))
-    (hp : (if e ≥ 0 then v.natAbs * m * 2 ^ e.toNat else v.natAbs * m / 2 ^ (-e).toNat) < 2 ^ 64) :
+    (hs : ¬ (nearestDouble (nearestDouble v.natAbs * m) ≠ 0 ∧ ((decide (v < 0)) != qneg) = true))
+    (hp : (if e ≥ 0 then nearestDouble (nearestDouble v.natAbs * m) * 2 ^ e.toNat
+           else nearestDouble (nearestDouble v.natAbs * m) / 2 ^ (-e).toNat) < 2 ^ 64) :
     truncatedProduct v q
-      = (if e ≥ 0 then v.natAbs * m * 2 ^ e.toNat else v.natAbs * m / 2 ^ (-e).toNat) := by
-  obtain ⟨j1, a1, a2⟩ := fits53_witness _ h1
-  obtain ⟨j2, b1, b2⟩ := fits53_witness _ h2
-  -- the value converts exactly
-  obtain ⟨k1, q1, r1, e1⟩ := round53_exact v.natAbs 0 j1 a1 a2
-  -- the product rounds exactly
-  have hmag : v.natAbs * m = (q1 * m) * 2 ^ k1 := by
-    rw [← e1, Nat.mul_assoc, Nat.mul_comm (2 ^ k1) m, ← Nat.mul_assoc]
-  rw [hmag] at b1 b2
-  obtain ⟨j3, c1, c2⟩ := dyadic_of_mul_pow (q1 * m) k1 j2 b1 b2
-  obtain ⟨k2, q2, r2, e2⟩ := round53_exact (q1 * m) ((0 : Int) + (k1 : Int) + e) j3 c1 c2
+      = (if e ≥ 0 then nearestDouble (nearestDouble v.natAbs * m) * 2 ^ e.toNat
+         else nearestDouble (nearestDouble v.natAbs * m) / 2 ^ (-e).toNat) := by
+  -- the value converts to the nearest double
+  obtain ⟨k1, q1, r1, e1⟩ := round53_value v.natAbs 0
+  -- the product of the two doubles is rounded to the nearest double
+  obtain ⟨k2, q2, r2, e2⟩ := round53_value (q1 * m) ((0 : Int) + (k1 : Int) + e)
+  have hy : nearestDouble (nearestDouble v.natAbs * m) = q2 * 2 ^ (k2 + k1) := by
+    rw [← e1, Nat.mul_assoc, Nat.mul_comm (2 ^ k1) m, ← Nat.mul_assoc, nearestDouble_scale, ← e2,
+      Nat.pow_add, Nat.mul_assoc]
+  rw [hy] at hs hp ⊢
   unfold truncatedProduct
   rw [f32ToF64_of_dyadic q qneg m e hq]
   simp only [intToF64, r1, F64.mul, r2]
-  -- the value of the result
-  have hval : v.natAbs * m = q2 * 2 ^ (k2 + k1) := by
-    rw [hmag, ← e2, Nat.pow_add, Nat.mul_assoc]
   have hE : (0 : Int) + (k1 : Int) + e + (k2 : Int) = ((k2 + k1 : Nat) : Int) + e := by omega
   rw [hE]
   have hfs := floorScale_mul_pow q2 (k2 + k1) e
-  rw [← hval] at hfs
   rw [toU64_fin _ _ _ _ (by rw [hfs]; exact hp), hfs]
   -- sign: not negative, or zero
   by_cases hz : q2 = 0
   · exact Or.inr hz
   · left
-    have hne : v.natAbs * m ≠ 0 := by
-      rw [hval]
-      exact Nat.mul_ne_zero hz (Nat.pos_iff_ne_zero.mp (Nat.pow_pos (by omega)))
+    have hne : q2 * 2 ^ (k2 + k1) ≠ 0 :=
+      Nat.mul_ne_zero hz (Nat.pos_iff_ne_zero.mp (Nat.pow_pos (by omega)))
     have := fun hx => hs ⟨hne, hx⟩
     cases hb : (decide (v < 0) != qneg)
     · rfl
